@@ -402,7 +402,12 @@ fn calibrate() {
     };
     let mut o = Outcome::new();
     if let Err((clause, _, detail)) = attempt(&cfg, &[], &mut o) {
-      panic!("C07 environment: the fault-free calibration pair failed ({clause}: {detail}); live participants cannot be judged on this host");
+      // Only "cannot create participants / they never find each other" says something about the
+      // host. Any other failure of this simplest pair is a failure of the code under test and
+      // is left to the cases proper, which report it as a violation.
+      if matches!(clause.as_str(), "c07.environment" | "c07.no-match" | "c07.api-error") {
+        panic!("C07 environment: the fault-free calibration pair failed ({clause}: {detail}); live participants cannot be judged on this host");
+      }
     }
   });
 }
@@ -783,6 +788,87 @@ fn attempt(cfg: &Config, choices: &[u8], o: &mut Outcome) -> Result<(), Fail> {
     1000..=4999 => "unmatch<5s",
     _ => "unmatch>=5s(lease)",
   });
+  // ---- 4. what is created after the deletion matches what still exists, not what was deleted
+  // (the deleted endpoint's participant is still there; only its own record must be gone)
+  const HOLD: StdDuration = StdDuration::from_millis(1500);
+  match cfg.delete {
+    Delete::Reader => {
+      let publisher = pa
+        .as_ref()
+        .unwrap()
+        .create_publisher(&QosPolicies::qos_none())
+        .map_err(|e| fail("c07.api-error", "create_publisher", format!("{e:?}")))?;
+      let q = qos(cfg.writer_tl);
+      let w2 = if cfg.keyed {
+        AnyWriter::Keyed(
+          publisher
+            .create_datawriter_cdr::<Live>(ta.as_ref().unwrap(), Some(q))
+            .map_err(|e| fail("c07.api-error", "create_datawriter", format!("{e:?}")))?,
+        )
+      } else {
+        AnyWriter::NoKey(
+          publisher
+            .create_datawriter_no_key_cdr::<Live>(ta.as_ref().unwrap(), Some(q))
+            .map_err(|e| fail("c07.api-error", "create_datawriter", format!("{e:?}")))?,
+        )
+      };
+      let still = nreaders as i32 - 1;
+      let (mut cur, mut un, mut max_seen) = (0i32, 0u32, 0i32);
+      let t3 = Instant::now();
+      while t3.elapsed() < HOLD {
+        w2.poll_status(&mut cur, &mut un);
+        max_seen = max_seen.max(cur);
+        std::thread::sleep(StdDuration::from_millis(5));
+      }
+      if max_seen > still {
+        return Err(fail(
+          "c07.matched-deleted",
+          "writer-created-after-reader-was-deleted",
+          format!("a writer created after reader 0 had been deleted (and the deletion observed) reports {max_seen} matched readers within {HOLD:?}; only {still} reader(s) still exist"),
+        ));
+      }
+      o.label("late-writer-after-reader-deletion");
+      drop(w2);
+    }
+    Delete::Writer if reader_created[0] => {
+      let subscriber = pb
+        .as_ref()
+        .unwrap()
+        .create_subscriber(&QosPolicies::qos_none())
+        .map_err(|e| fail("c07.api-error", "create_subscriber", format!("{e:?}")))?;
+      let q = qos(cfg.reader_tl[0]);
+      let r3 = if cfg.keyed {
+        AnyReader::Keyed(
+          subscriber
+            .create_datareader_cdr::<Live>(tb.as_ref().unwrap(), Some(q))
+            .map_err(|e| fail("c07.api-error", "create_datareader", format!("{e:?}")))?,
+        )
+      } else {
+        AnyReader::NoKey(
+          subscriber
+            .create_datareader_no_key_cdr::<Live>(tb.as_ref().unwrap(), Some(q))
+            .map_err(|e| fail("c07.api-error", "create_datareader", format!("{e:?}")))?,
+        )
+      };
+      let (mut cur, mut un, mut max_seen) = (0i32, 0u32, 0i32);
+      let t3 = Instant::now();
+      while t3.elapsed() < HOLD {
+        r3.poll_status(&mut cur, &mut un);
+        max_seen = max_seen.max(cur);
+        std::thread::sleep(StdDuration::from_millis(5));
+      }
+      if max_seen > 0 {
+        return Err(fail(
+          "c07.matched-deleted",
+          "reader-created-after-writer-was-deleted",
+          format!("a reader created after the writer had been deleted (and the deletion observed) reports {max_seen} matched writers within {HOLD:?}; no writer exists"),
+        ));
+      }
+      o.label("late-reader-after-writer-deletion");
+      drop(r3);
+    }
+    _ => {}
+  }
   drop(readers);
   drop(w);
   drop((ta, tb, tc));
